@@ -282,6 +282,7 @@ def run(chk: Check, only_numeric: bool = False) -> None:
         run_codec_fast_paths(chk, ix)
         run_pending_return_test(chk, ix)
         run_static_lengths_are_exact(chk, ix)
+        run_inherited_class_attributes(chk, ix)
         pass_order(chk, ix)
 
 
@@ -892,3 +893,30 @@ def run_static_lengths_are_exact(chk: Check, ix) -> None:
             r.violation(key, f.loc(ret), f"`{norm(ret.value)}` is returned without an `all(x is not None for x in {lst})` test: an unknown input length (None) either crashes the comparison or is ignored")
     if n < 1:
         raise AnalysisError("get_expr_length: no combined length (min/max/sum over argument lengths) found; zip() had one")
+
+
+def run_inherited_class_attributes(chk: Check, ix) -> None:
+    """R05.18: the compiler finds the special class attributes the checker finds."""
+    r = chk.rule("R05.18", "the type checker reads `__match_args__` of the class in a class pattern through TypeInfo.get (the MRO), so a program whose pattern class inherits it is accepted; mypyc/irbuild/match.py reads the same attribute to order positional sub-patterns and must look it up the same way (`info.get(...)`), not in the class's own symbol table (`info.names.get(...)` / `info.names[...]` followed by an assertion: the compiler crashes on a program the checker accepts)", floor=1)
+    m = ix.module("mypyc.irbuild.match")
+    n = 0
+    for f in list(m.functions.values()) + [mm for c in m.classes.values() for mm in c.methods.values()]:
+        for c in ast.walk(f.node):
+            lit = None
+            own = False
+            if isinstance(c, ast.Call) and isinstance(c.func, ast.Attribute) and c.func.attr == "get" and c.args and isinstance(c.args[0], ast.Constant) and isinstance(c.args[0].value, str) and c.args[0].value.startswith("__"):
+                lit = c.args[0].value
+                own = isinstance(c.func.value, ast.Attribute) and c.func.value.attr == "names"
+            elif isinstance(c, ast.Subscript) and isinstance(c.value, ast.Attribute) and c.value.attr == "names" and isinstance(c.slice, ast.Constant) and isinstance(c.slice.value, str) and c.slice.value.startswith("__"):
+                lit = c.slice.value
+                own = True
+            if lit is None:
+                continue
+            n += 1
+            key = f"{f.qualname}: `{lit}` is looked up through the MRO"
+            if own:
+                r.violation(key, f.loc(c), f"`{norm(c)[:60]}` looks only at the class's own names: for `class Q(P): pass` with P defining {lit}, `case Q(a, b)` is accepted by the checker and crashes the compiler (AssertionError)")
+            else:
+                r.ok(key, f.loc(c))
+    if n < 1:
+        raise AnalysisError("irbuild/match.py: no look-up of a special class attribute found")
